@@ -27,7 +27,10 @@ ASSUMPTIONS = ['exhaustive small trees replace the random nested structures '
 
 BOUNDS = {'quick': dict(containers=3), 'thorough': dict(containers=4,
                                                          extra_leaves=True)}
-LITERALS = ["'x'", '"x"', "''", '1', '-1', '1.5', 'True', 'False', 'None']
+LITERALS = ["'x'", '"x"', "''", '1', '-1', '1.5', 'True', 'False', 'None',
+            # numbers whose source text is not their string form, and digit
+            # strings that are no literal at all (credential paths, then)
+            '1.50', '00', '0.00001', '007']
 
 
 def bound(tier):
@@ -43,6 +46,7 @@ def lefts():
 
 
 RIGHTS = [('x', [{}]), ('1', [{}]), ('1.5', [{}]), ('True', [{}]),
+          ('1.50', [{}]), ('00', [{}]), ('1e-05', [{}]), ('007', [{}]),
           ('None', [{}]), ("['x']", [{}]), ('', [{}]),
           ('%(t)s', [{'t': 'x'}, {'t': 1}, {'t': True}, {'t': None},
                      {'t': 1.5}, {}]),
